@@ -471,7 +471,7 @@ fn random_job<K: BoolKind>(seed: u64, cases: u32, rep: &mut Report) {
 
 pub fn run(cfg: &Cfg) -> i32 {
     let start = Instant::now();
-    if let Some(path) = &cfg.replay {
+    if let Some(path) = cfg.replay.as_ref().filter(|p| replay_case_is(p, |c| c["ops"].is_array())) {
         let v: serde_json::Value = serde_json::from_str(&std::fs::read_to_string(path).expect("replay file")).expect("json");
         let ops: Vec<NOp> = serde_json::from_value(v["case"]["ops"].clone()).expect("ops");
         let out = isolated(60, |w| {
